@@ -240,5 +240,8 @@ func buildCorpus(thorough bool) []corpusCase {
 		add(rawCase("message0", cat([]byte{0, byte(network.CMDExtensible)}, mustHex("fe00000002"), make([]byte, 0x2000000))))
 		add(rawCase("extensible", cat([]byte{0}, make([]byte, 28), mustHex("fe00000002"), make([]byte, 0x2000000), []byte{1, 0, 0})))
 	}
+	cs = append(cs, storedCorpus()...) // stored form of manifests / deployed contracts (storedform.go)
+	cs = append(cs, dagCorpus()...)    // shared compounds at the item-count limit (dag.go)
+	cs = append(cs, jsonCorpus()...)   // typed JSON of stack items (itemjson.go)
 	return cs
 }
